@@ -144,6 +144,11 @@ fn extract<'tcx>(tcx: TyCtxt<'tcx>, krate: &str, is_test: bool) -> J {
             for (pi, pb) in proms.iter_enumerated() {
                 fns.push(dump_fn(tcx, ldid, kind, pb, Some(pi.as_usize())));
             }
+        } else if matches!(kind, DefKind::AssocConst { .. }) {
+            // `const KNOWN: usize = A::K::USIZE - 1;` in an impl: the (polymorphic) initialiser, so that uses of the constant can be read
+            // as the expression it abbreviates
+            let body: &Body<'tcx> = tcx.mir_for_ctfe(did);
+            fns.push(dump_fn(tcx, ldid, kind, body, None));
         } else if matches!(kind, DefKind::Const { .. }) {
             // scalar values are evaluated below in `consts`; the initialiser body of a non-generic named constant is dumped too, so that
             // an array / aggregate constant (`const SYMBOLS: [Nucleotide; 4] = [..]`) can be tabulated like a promoted one
